@@ -91,6 +91,9 @@ def main():
             work.append(('neutral', '%s/%s' % (
                 os.path.basename(os.path.dirname(p)), os.path.basename(p)),
                 p, None, base))
+    if '--only' in sys.argv:
+        pat = sys.argv[sys.argv.index('--only') + 1]
+        work = [w for w in work if pat in w[1]]
     bad = 0
     out = {'seeds': {}, 'neutral': {}}
     try:
@@ -119,8 +122,9 @@ def main():
     out['repo_head'] = head
     out['seeds'] = dict(sorted(out['seeds'].items()))
     out['neutral'] = dict(sorted(out['neutral'].items()))
-    json.dump(out, open(os.path.join(VERIF, 'seeded', 'replay.json'), 'w'),
-              indent=1)
+    if '--only' not in sys.argv:
+        json.dump(out, open(os.path.join(VERIF, 'seeded', 'replay.json'),
+                            'w'), indent=1)
     print('replayed %d seeds, %d neutral patches; %d problem(s)' % (
         len(out['seeds']), len(out['neutral']), bad))
     return 1 if bad else 0
